@@ -10,15 +10,18 @@ VERIF = os.path.dirname(os.path.dirname(os.path.abspath(__file__)))
 def main():
     args = [a for a in sys.argv[1:] if not a.startswith("--")]
     budget = "240"
+    base = "HEAD"
     for a in sys.argv[1:]:
         if a.startswith("--thorough-budget="):
             budget = a.split("=")[1]
+        if a.startswith("--base="):
+            base = a.split("=")[1]
     seed_dir, props = args[0], args[1:]
     patch = os.path.join(seed_dir, "patch.diff")
     wt = tempfile.mkdtemp(prefix="evalwt-", dir="/tmp")
     os.rmdir(wt)
     out = tempfile.mkdtemp(prefix="evalout-", dir="/tmp")
-    subprocess.run(["git", "-C", "/repo", "worktree", "add", "-q", wt, "HEAD"], check=True)
+    subprocess.run(["git", "-C", "/repo", "worktree", "add", "-q", wt, base], check=True)
     results = []
     try:
         r = subprocess.run(["git", "-C", wt, "apply", os.path.abspath(patch)], capture_output=True, text=True)
